@@ -1,14 +1,15 @@
 #!/bin/sh
 # MANIFEST.setup_cmd: build the Lean side from files on disk only (offline).
+# Builds the theorem modules and model drivers of every property claimed in MANIFEST.json.
+# (Each check rebuilds its own targets anyway; this only warms the build cache.)
 set -e
 cd "$(dirname "$0")/.."
 /venv/bin/python tools/translate.py /repo >/dev/null
+IDS=$(/venv/bin/python -c "import json; print(' '.join(c['property_id'] for c in json.load(open('MANIFEST.json'))['checks']))")
 cd lean
 TARGETS=""
-for f in CsVerif/Props/C*.lean; do
-  m=$(basename "$f" .lean); TARGETS="$TARGETS CsVerif.Props.$m"
-done
-for f in Driver*.lean; do
-  m=$(basename "$f" .lean | sed 's/^Driver//' | tr 'A-Z' 'a-z'); TARGETS="$TARGETS drv_$m"
+for id in $IDS; do
+  lid=$(echo "$id" | tr 'A-Z' 'a-z')
+  TARGETS="$TARGETS CsVerif.Props.$id drv_$lid"
 done
 lake build $TARGETS
